@@ -4,7 +4,10 @@
     of the value universe (atom or container) and any searched object [obj : xvalue]: the value
     universe ([inj]) extended with class instances ([XObj cls attrs]: __dict__ / __slots__ objects,
     attrs = the non-dunder names of dir(obj) with their values; a bound method is an instance without
-    attributes), named tuples ([XNamed]) and objects whose attributes cannot be read ([XOpaque]); it returns
+    attributes), named tuples ([XNamed]), objects whose attributes cannot be read ([XOpaque]), number-like
+    leaves outside the atoms ([XNum type value text]: any float, Decimal, date / datetime / timedelta, with
+    their exact text str(obj)) and back references of cyclic objects ([XRef]); it returns [RReErr]
+    (re.error of re.compile: oracle [re_ok]),
     [RRaise] (the TypeError of __init__) or [ROk evs], evs being the reports in the order the code makes them:
     [EvValue q v] = matched_values entry for the key sequence q, [EvPath q v] = matched_paths
     entry, [EvAttr q n] = matched_paths entry for the bound method n of the str at q (finding
